@@ -72,6 +72,27 @@ def cases(rng, tier):
         e = rand_circuit(rng, n, k)
         cs.append({"kind": "matrix", "n": n, "e": ("dgr", e)})
         cs.append({"kind": "applyraw", "n": n, "raw": gen.random_state(rng, n), "e": ("mul", e, ("dgr", e))})
+    # products with a shape: neighbours in the queue sit on different qubits, gates further apart share one and do
+    # not commute (a b a', a b c a', ...), and layers (every gate on its own qubit, then a gate across them)
+    ones = ["x", "y", "z", "s", "t", "h", "rx", "ry", "rz"]
+    for _ in range(60 if tier == "quick" else 1500):
+        n = rng.randint(2, 4)
+        qs = list(range(n))
+        k = rng.randint(3, 6)
+        seq = []
+        prev = None
+        for i in range(k):
+            q = rng.choice([x for x in qs if x != prev])
+            prev = q
+            seq.append(gen.gate(rng.choice(ones), 1 << q, rng))
+        if rng.random() < 0.4 and n >= 2:
+            a, b = rng.sample(qs, 2)
+            seq.append(gen.gate(rng.choice(["rzz", "rxx", "swap", "sqrt_swap"]), (1 << a) | (1 << b), rng))
+        e = seq[0]
+        for g in seq[1:]:
+            e = (rng.choice(["mul", "mul", "mulassign", "pushfront", "wrapped"]), e, g)
+        cs.append({"kind": "matrix", "n": n, "e": ("dgr", e)})
+        cs.append({"kind": "matrix", "n": n, "e": ("mul", e, ("dgr", e))})
     return cs
 
 
